@@ -4,6 +4,8 @@ Theorems about `Try_AST_Node` as modelled in Model/Chai/Eval.lean (clause scan, 
 what counts as catchable), for every state and every sufficient amount of fuel.
 -/
 import ChaiVerif.Lemmas.ChaiRunShape
+import ChaiVerif.Model.Chai.Catches
+import ChaiVerif.Gen.Catches
 namespace ChaiVerif.C10
 open ChaiVerif.Chai
 
@@ -108,5 +110,19 @@ example :
     let lits : List Val := [.builtin .throw_, .bool true]
     let prog := Node.tryN (.block [.call false (.const 0) [.const 1]]) [(some (5, some .int), .block [.noop])] none
     (run [] 20 (.node prog) (St.init lits)).1 = .thrown (.boxed 1) := by decide
+
+/-! ### where the C++ code may end or alter an exception: regenerated from the source -/
+
+/-- **no new place swallows or alters a user's exception**: of all catch clauses in the current source of the dispatch kit, the evaluator,
+    the engine and the optimizer (census regenerated by extract/e_catches.py on every run), every handler whose type can be a user's
+    exception — `...`, std::exception and its standard subclasses, eval_error, a thrown Boxed_Value — either rethrows what it caught
+    (`throw;`) or is one of the handlers pinned, with its reason, in Model/Chai/Catches.lean (the script-level catch ladder itself, the
+    boxing of eval_error for script code, parse-time folding, the error reports of arithmetic and name lookup, conversion lookups).  A
+    handler added anywhere on the way of an exception — a dispatch loop that starts catching std::exception, a guard evaluation wrapped in
+    `catch (...)` — is a new row and breaks this theorem. -/
+theorem no_new_absorbing_handlers :
+    Gen.catchClauses.all (fun r =>
+      !(Chai.broadTypes.contains r.2.2.2.1) || r.2.2.2.2 == "rethrow" || Chai.pinnedBroadHandlers.contains r) = true := by
+  decide
 
 end ChaiVerif.C10
